@@ -646,7 +646,10 @@ def leg_CF(res, r, tier):
         prog += ['def f_%d():' % i] + ['    ' + x for x in p] + ['']
     prog += ['out = []', 'for i, orc_list in enumerate(%r):' % oracles, '    oracle = list(orc_list)', '    del trace[:]',
              '    try:', '        v = globals()["f_%d" % i]()', '        out.append([list(trace), v, len(oracle)])', '    except Exhausted:', '        out.append(None)', 'print(json.dumps(out))']
-    p = subprocess.run([common.PY, '-I', '-c', '\n'.join(prog)], stdout=subprocess.PIPE, stderr=subprocess.PIPE, timeout=300)
+    with common.scratch('c05cf-') as d_:
+        path_ = os.path.join(d_, 'bodies.py')
+        open(path_, 'w').write('\n'.join(prog))
+        p = subprocess.run([common.PY, '-I', path_], stdout=subprocess.PIPE, stderr=subprocess.PIPE, timeout=600)
     if p.returncode != 0:
         res.broken.append(('reference-model', 'leg CF: the rendered skeleton programs did not run: ' + p.stderr.decode()[-300:]))
         return 0
